@@ -79,9 +79,23 @@ type concCase struct {
 	// WriteTimeoutMs (network kinds): the client's write timeout (0: 1 s). It bounds the time the WRITE of a request may take, counted
 	// from the moment the call has the connection to itself; the transport refuses a write that starts after the deadline it was given.
 	WriteTimeoutMs int `json:"write_timeout_ms,omitempty"`
+	// CloseFirst (network kinds): Close is called on the client before it is connected for the first time
+	CloseFirst bool `json:"close_first,omitempty"`
 	// Age: before the goroutines start, the client makes this many ordinary request calls one after the other (a client that has been
 	// in use for a long time: ticket and sequence counters have advanced, maybe wrapped)
 	Age int `json:"age,omitempty"`
+}
+
+// within runs f and reports whether it returned within d (f keeps running in its goroutine otherwise).
+func within(d time.Duration, f func()) bool {
+	done := make(chan struct{})
+	go func() { defer close(done); f() }()
+	select {
+	case <-done:
+		return true
+	case <-time.After(d):
+		return false
+	}
 }
 
 // racyHooks is a ClientHooks implementation that is deliberately not safe for concurrent use.
@@ -244,8 +258,19 @@ func runConc(c concCase) harness.Result {
 		default:
 			cl = modbus.NewRTUClientWithConfig(conf)
 		}
-		if err := cl.Connect(context.Background(), "arrival:1"); err != nil {
-			return harness.Fail("connect: %v", err)
+		if c.CloseFirst {
+			// Close on a client that has never been connected (a Close that wins the race against the first Connect, a deferred Close
+			// after a failed start): a no-op that leaves the client usable
+			if !within(10*time.Second, func() { _ = cl.Close() }) {
+				return harness.Fail("Close on a client that was never connected did not return within 10 s")
+			}
+		}
+		var cerr error
+		if !within(10*time.Second, func() { cerr = cl.Connect(context.Background(), "arrival:1") }) {
+			return harness.Fail("Connect (close before the first connect: %v) did not return within 10 s", c.CloseFirst)
+		}
+		if cerr != nil {
+			return harness.Fail("connect: %v", cerr)
 		}
 		do, closeFn = cl.Do, cl.Close
 		connectFn = func() error { return cl.Connect(context.Background(), "arrival:1") }
@@ -555,6 +580,7 @@ func genConc(t *rapid.T) concCase {
 	}
 	c.Hooks = rapid.IntRange(0, 2).Draw(t, "hooks") == 0
 	c.CountingParser = !isSerial(c.Kind) && rapid.IntRange(0, 3).Draw(t, "counting_parser") == 0
+	c.CloseFirst = !isSerial(c.Kind) && rapid.IntRange(0, 3).Draw(t, "close_first") == 0
 	if isSerial(c.Kind) {
 		c.ReadBlockUs = rapid.SampledFrom([]int{0, 3000, 15000}).Draw(t, "read_block")
 	}
